@@ -8,7 +8,8 @@
    (over-long plaintext) — so "enc = Ok c -> dec c = Ok p" is the round trip. *)
 From Coq Require Import List NArith Bool Lia ZifyN ZifyNat.
 From Tink Require Import Bytes AeadFrame AeadFrameProofs Ctr CtrProofs EtM EtMProofs
-  Polyval PolyvalProofs PolyvalBytesProofs GcmSiv GcmSivProofs Cmac Xaes XaesProofs Envelope EnvelopeProofs.
+  Polyval PolyvalProofs PolyvalBytesProofs GcmSiv GcmSivProofs Cmac Xaes XaesProofs Envelope EnvelopeProofs
+  GcmSivSpec GcmSivSpecProofs EnvelopeDek EnvelopeProofs2.
 Import ListNotations.
 Open Scope N_scope.
 
@@ -318,4 +319,180 @@ Example C01_nonvacuous :
 Proof.
   split; [destruct (toy_laws gcm_seal_max) as [A [B _]]; split; assumption|].
   split; [intros; apply zeros_length|]. split; vm_compute; reflexivity.
+Qed.
+
+(* ========================================================================= *)
+(* Stretch round (audit items 11 and the C01 rows): explicit wire formats of
+   ChaCha20-Poly1305 / XChaCha20-Poly1305, AES-GCM-SIV against a whole-scheme
+   RFC 8452 specification, the KMS envelope closed over the data-key AEADs.   *)
+
+(* the laws of a standard AEAD with a 16-byte tag (as in C02.v) *)
+Definition std_aead (seal : aead_seal) (open_ : aead_open) (seal_max : N) : Prop :=
+  seal_len_law seal 16 /\ open_seal_law seal open_ seal_max /\ open_only_seal_law seal open_ seal_max.
+
+(* ChaCha20-Poly1305 (seal = RFC 8439 AEAD, 12-byte nonce) and XChaCha20-Poly1305
+   (seal = the XChaCha20 variant, 24-byte nonce): for every plaintext the library
+   accepts (<= 2^38-64 bytes) the ciphertext is  prefix || nonce || Seal(key, nonce, ad, p) *)
+Theorem C01_chacha20poly1305_wire_format :
+  forall (seal : aead_seal) v id key iv p ad,
+    lenN p <= 2 ^ 38 - 64 ->
+    chacha_enc seal (output_prefix v id) key iv p ad = Ok (output_prefix v id ++ iv ++ seal key iv ad p) /\
+    chacha_subtle_enc seal key iv p ad = Ok (iv ++ seal key iv ad p) /\
+    xchacha_enc seal (output_prefix v id) key iv p ad = Ok (output_prefix v id ++ iv ++ seal key iv ad p) /\
+    xchacha_enc seal [] key iv p ad = Ok (iv ++ seal key iv ad p).
+Proof.
+  intros seal v id key iv p ad Hp.
+  pose proof (output_prefix_length v id) as Hl.
+  assert (H5 : lenN (output_prefix v id) <= 5) by (unfold lenN; destruct v; lia).
+  repeat split.
+  - unfold chacha_enc. apply (na_enc_total seal (fun _ _ _ _ => None)); [|exact Hp].
+    unfold chacha_tink_max, chacha_tink_seal_max, MaxInt. lia.
+  - unfold chacha_subtle_enc. apply (na_enc_total seal (fun _ _ _ _ => None)); [|exact Hp].
+    unfold chacha_subtle_tink_max, chacha_tink_seal_max, MaxInt. lia.
+  - unfold xchacha_enc. apply (na_enc_total seal (fun _ _ _ _ => None)); [|exact Hp].
+    unfold xchacha_tink_max, chacha_tink_seal_max, MaxInt. lia.
+  - unfold xchacha_enc. apply (na_enc_total seal (fun _ _ _ _ => None)); [|exact Hp].
+    unfold xchacha_tink_max, chacha_tink_seal_max, MaxInt. lia.
+Qed.
+Print Assumptions C01_chacha20poly1305_wire_format.
+
+(* ... and Decrypt of exactly that byte string returns p: Tink decrypts what any
+   implementation of the standard AEAD produces in this framing *)
+Theorem C01_chacha20poly1305_explicit_round_trip :
+  forall (seal : aead_seal) (open_ : aead_open), std_aead seal open_ chacha_seal_max ->
+    forall v id key p ad, lenN p <= 2 ^ 38 - 64 ->
+      (forall iv, length iv = 12%nat ->
+         chacha_dec open_ (output_prefix v id) key (output_prefix v id ++ iv ++ seal key iv ad p) ad = Ok p /\
+         chacha_subtle_dec open_ key (iv ++ seal key iv ad p) ad = Ok p) /\
+      (forall iv, length iv = 24%nat ->
+         xchacha_dec open_ (output_prefix v id) key (output_prefix v id ++ iv ++ seal key iv ad p) ad = Ok p /\
+         xchacha_subtle_dec open_ key (iv ++ seal key iv ad p) ad = Ok p).
+Proof.
+  intros seal open_ [HL [HO HU]] v id key p ad Hp.
+  split; intros iv Hiv.
+  - destruct (C01_chacha20poly1305_wire_format seal v id key iv p ad Hp) as [E1 [E2 _]].
+    destruct (C01_chacha20poly1305_round_trip seal open_ HL HO v id key iv p ad (output_prefix v id ++ iv ++ seal key iv ad p) Hiv) as [R1 _].
+    destruct (C01_chacha20poly1305_round_trip seal open_ HL HO v id key iv p ad (iv ++ seal key iv ad p) Hiv) as [_ R2].
+    split; [exact (R1 E1)|exact (R2 E2)].
+  - destruct (C01_chacha20poly1305_wire_format seal v id key iv p ad Hp) as [_ [_ [E1 E2]]].
+    assert (Hs : forall pre : bytes, (length pre <= 5)%nat -> lenN (pre ++ iv ++ seal key iv ad p) <= MaxInt).
+    { intros pre Hpre. unfold lenN in *. rewrite !app_length, HL, Hiv. unfold MaxInt. lia. }
+    split.
+    + destruct (C01_xchacha20poly1305_round_trip seal open_ HL HO v id key iv p ad (output_prefix v id ++ iv ++ seal key iv ad p) Hiv) as [R1 _];
+        [apply Hs; rewrite output_prefix_length; destruct v; lia|exact (R1 E1)].
+    + destruct (C01_xchacha20poly1305_round_trip seal open_ HL HO v id key iv p ad (iv ++ seal key iv ad p) Hiv) as [_ R2];
+        [apply (Hs []); cbn [length]; lia|exact (R2 E2)].
+Qed.
+Print Assumptions C01_chacha20poly1305_explicit_round_trip.
+
+(* ------------------------------------------------------------------------- *)
+(* AES-GCM-SIV = RFC 8452.  model/GcmSivSpec.v is a whole-scheme specification written
+   from the text of the RFC (key derivation from the nonce; POLYVAL, on GF(2^128), over
+   pad16(ad) || pad16(p) || le64(8|ad|) || le64(8|p|); tag = AES(K_enc, (S xor nonce)
+   with bit 127 cleared) on 128-bit little-endian integers; keystream block i =
+   AES(K_enc, le32((tag[0..3] + i) mod 2^32) || the other 96 bits of tag with bit 127
+   set)), independent of the structure of internal/aead/aesgcmsiv.go.  The model of
+   the code produces exactly  prefix || nonce || that  for every key, nonce and all
+   inputs within the code's size limits (AES any function with 16-byte well-formed
+   output), and decrypts it. *)
+Theorem C01_aesgcmsiv_is_rfc8452 :
+  forall (aes : bytes -> bytes -> bytes),
+    (forall k b, length (aes k b) = 16%nat) -> (forall k b, wfb (aes k b)) ->
+    forall prefix key nonce p ad,
+      wfb nonce -> wfb p -> wfb ad -> length nonce = 12%nat ->
+      lenN p <= MaxInt32 - 12 - 16 -> lenN ad <= MaxInt32 ->
+      siv_enc aes prefix key nonce p ad = Ok (prefix ++ nonce ++ rfc8452_encrypt aes key nonce p ad) /\
+      siv_dec aes prefix key (prefix ++ nonce ++ rfc8452_encrypt aes key nonce p ad) ad = Ok p.
+Proof.
+  intros aes HA HW prefix key nonce p ad Hn Hp Ha Ln Lp La.
+  pose proof (siv_enc_is_rfc8452 aes HA HW prefix key nonce p ad Hn Hp Ha Ln Lp La) as E.
+  split; [exact E|]. exact (siv_round_trip aes HA prefix key nonce p ad _ Ln E).
+Qed.
+Print Assumptions C01_aesgcmsiv_is_rfc8452.
+
+(* the pieces, individually: derived keys; POLYVAL input = the RFC's padded blocks; the
+   tag block on integers; the counter mode by block index *)
+Theorem C01_aesgcmsiv_rfc8452_components :
+  forall (aes : bytes -> bytes -> bytes),
+    (forall k b, length (aes k b) = 16%nat) -> (forall k b, wfb (aes k b)) ->
+    forall key nonce p ad enc tag,
+      (dk_auth aes key nonce = rfc_auth_key aes key nonce /\ dk_enc aes key nonce = rfc_enc_key aes key nonce) /\
+      (wfb p -> wfb ad ->
+         polyval_impl (dk_auth aes key nonce) [ad; p; length_block p ad] =
+         polyval_spec (rfc_auth_key aes key nonce) (chunks 16 (pad16 ad ++ pad16 p ++ rfc_length_block p ad))) /\
+      (wfb nonce -> length nonce = 12%nat -> wfb p -> wfb ad ->
+         tagf aes key nonce p ad = rfc_tag aes key nonce p ad) /\
+      (wfb tag -> length tag = 16%nat -> sctr aes enc tag p = rfc_ctr aes enc tag p).
+Proof.
+  intros aes HA HW key nonce p ad enc tag. split; [apply rfc_keys_eq|]. split; [apply polyval_part; assumption|].
+  split; [apply tagf_eq; assumption|]. apply ctr_part; assumption.
+Qed.
+Print Assumptions C01_aesgcmsiv_rfc8452_components.
+
+(* ------------------------------------------------------------------------- *)
+(* KMS envelope, closed: the data-key AEAD is what registry.Primitive builds from the
+   serialised DEK of the template (model/EnvelopeDek.v: AES-GCM, ChaCha20-Poly1305,
+   XChaCha20-Poly1305, AES-GCM-SIV with an empty prefix; unparsable or wrongly sized
+   DEKs are errors).  Its round trip is PROVED from the theorems above; only the
+   key-encryption AEAD (the remote KMS) is abstract, with its round-trip law explicit. *)
+Theorem C01_envelope_round_trip_closed :
+  forall (aes : bytes -> bytes -> bytes) gcm_seal gcm_open cc_seal cc_open xcc_seal xcc_open,
+    (forall k b, length (aes k b) = 16%nat) ->
+    std_aead gcm_seal gcm_open gcm_seal_max -> std_aead cc_seal cc_open chacha_seal_max ->
+    std_aead xcc_seal xcc_open chacha_seal_max ->
+    forall kek_enc kek_dec kivlen, kek_rt kek_enc kek_dec kivlen ->
+    forall kd dek kekiv dekiv p ad c,
+      length kekiv = kivlen -> length dekiv = dek_ivlen kd ->
+      env_enc kek_enc (dek_enc aes gcm_seal cc_seal xcc_seal kd) dek kekiv dekiv p ad = Ok c ->
+      env_dec kek_dec (dek_dec aes gcm_open cc_open xcc_open kd) c ad = Ok p.
+Proof.
+  intros aes gs go cs co xs xo HA HG HC HX ke kd kl HK kind dek kekiv dekiv p ad c H1 H2 He.
+  exact (env_round_trip_closed aes gs go cs co xs xo HA HG HC HX ke kd kl kind dek kekiv dekiv p ad c HK H1 H2 He).
+Qed.
+Print Assumptions C01_envelope_round_trip_closed.
+
+(* wire format: for a data key k of a supported size (newDEK serialises it as
+   tag || len || k), the ciphertext is be32(|encDEK|) || encDEK || payload with
+   encDEK = KEK.Encrypt(tag || len || k, "") of 1..4096 bytes and payload = the data-key
+   AEAD's ciphertext of (p, ad) (whose format the theorems above give) *)
+Theorem C01_envelope_wire_format :
+  forall (aes : bytes -> bytes -> bytes) (gcm_seal cc_seal xcc_seal : aead_seal)
+         (kek_enc : bytes -> bytes -> bytes -> outcome bytes) kd k kekiv dekiv p ad c,
+    dek_size_ok kd k = true ->
+    env_enc kek_enc (dek_enc aes gcm_seal cc_seal xcc_seal kd) (dek_proto (dek_tag kd) k) kekiv dekiv p ad = Ok c ->
+    exists encDEK payload,
+      kek_enc kekiv (dek_tag kd :: lenN k :: k) [] = Ok encDEK /\ 1 <= lenN encDEK <= 4096 /\
+      dek_prim_enc aes gcm_seal cc_seal xcc_seal kd k dekiv p ad = Ok payload /\
+      c = be_bytes 4 (lenN encDEK) ++ encDEK ++ payload.
+Proof. exact env_wire_format_closed. Qed.
+Print Assumptions C01_envelope_wire_format.
+
+(* the law asked of the key-encryption AEAD is met by Tink's own AEADs (here AES-GCM with
+   any prefix), so the envelope over a local KEK is closed entirely *)
+Theorem C01_envelope_kek_law_inhabited :
+  forall (seal : aead_seal) (open_ : aead_open), std_aead seal open_ gcm_seal_max ->
+    forall prefix key,
+      kek_rt (aesgcm_enc seal prefix key) (aesgcm_dec open_ prefix key) 12 /\
+      kek_only (aesgcm_enc seal prefix key) (aesgcm_dec open_ prefix key) 12.
+Proof. intros seal open_ HL prefix key. exact (aesgcm_is_kek seal open_ prefix key HL). Qed.
+Print Assumptions C01_envelope_kek_law_inhabited.
+
+(* Non-vacuity of the stretch theorems: a whole envelope (toy AEAD as KEK and as AES-GCM
+   data key) encrypts, has the stated size and decrypts; the RFC 8452 equality on a
+   concrete two-block instance with a key- and block-dependent block function *)
+Example C01_stretch_nonvacuous :
+  (let kenc := aesgcm_enc toy_seal (output_prefix VTink 7) [1] in
+   let kdec := aesgcm_dec (toy_open gcm_seal_max) (output_prefix VTink 7) [1] in
+   let z := fun _ _ : bytes => zeros 16 in
+   match env_enc kenc (dek_enc z toy_seal toy_seal toy_seal DekGcm) (dek_proto (dek_tag DekGcm) (zeros 16))
+                 (zeros 12) (zeros 12) [1; 2; 3] [9] with
+   | Ok c => env_dec kdec (dek_dec z (toy_open gcm_seal_max) (toy_open chacha_seal_max) (toy_open chacha_seal_max) DekGcm) c [9]
+             = Ok [1; 2; 3] /\ length c = (4 + (5 + 12 + 18 + 16) + (12 + 3 + 16))%nat
+   | _ => False
+   end) /\
+  siv_enc toy_aes [1; 0; 0; 0; 7] ex_key ex_nonce ex_pt ex_ad =
+    Ok ([1; 0; 0; 0; 7] ++ ex_nonce ++ rfc8452_encrypt toy_aes ex_key ex_nonce ex_pt ex_ad) /\
+  std_aead toy_seal (toy_open chacha_seal_max) chacha_seal_max.
+Proof.
+  split; [exact env_closed_instance|]. split; [exact siv_enc_is_rfc8452_instance|exact (toy_laws chacha_seal_max)].
 Qed.
